@@ -28,11 +28,12 @@ def main():
         for d in sys.argv[1:]:
             d = os.path.abspath(d)
             meta = json.load(open(d + "/meta.json"))
-            demo_path = meta["demo_path"]
-            demo_path = demo_path[demo_path.index("repo/") + 5:] if "repo/" in demo_path else demo_path
-            demo_cmd = meta["demo_cmd"]
-            demo_cmd = re.sub(r"CARGO_TARGET_DIR=\S+\s*", "", demo_cmd)
-            demo_cmd = re.sub(r"cd \S*repo\S*\s*&&\s*", "", demo_cmd)
+            m = re.search(r"((?:integer|float|rational|base|macros)/(?:tests|examples)/[\w]+\.rs|tests/[\w]+\.rs)", meta["demo_path"])
+            demo_path = m.group(1)
+            m = re.search(r"(cargo (?:\+nightly )?test [^&;|]+)", meta["demo_cmd"])
+            demo_cmd = m.group(1).strip()
+            if "--offline" not in demo_cmd:
+                demo_cmd += " --offline"
             verdict = {}
             sh("git checkout -q -- . && git clean -qfd", cwd=wt)
             os.makedirs(os.path.dirname(os.path.join(wt, demo_path)), exist_ok=True)
